@@ -479,6 +479,24 @@ class Canon:
             out.append(el)
         return out
 
+    def const_value(self, e):
+        """integer value of a constant operand (literal array, or a constant item of the workspace), else None"""
+        from .prov import const_int, const_item
+        e = strip(e)
+        v = const_int(e)
+        if v is not None:
+            return v
+        it = const_item(e) if e.k == 'const' else None
+        if it and getattr(self.P, 'F', None) is not None:
+            fi = self.P.F.items.get(it)
+            if fi is not None:
+                from .facts import item_int
+                try:
+                    return item_int(fi)
+                except Exception:
+                    return None
+        return None
+
     def c(self, e):
         # memo: the same sub-expression object is rendered many times (bounds inside bounds); the entry keeps the object
         # alive so its id cannot be reused.  Depth-truncated renderings are not cached.
@@ -507,6 +525,18 @@ class Canon:
             if in_.k == 'binop' and in_.name == 'BitAnd' and len(in_.args) == 2 and const_int(in_.args[1]) == 255:
                 # (x & 0xff) as u8 == x as u8
                 return self.c(E('cast', e.name, [in_.args[0]], ty='u8', c=e.c))
+        if k == 'field' and e.name in ('0', '1') and e.args:
+            # u256_add / u256_sub of two constants (a mask written as `2^w - 1`, or kept as an evaluated `const`): the value
+            cl = strip(e.args[0])
+            if cl.k == 'call' and last(cl.name) in ('u256_add', 'u256_sub') and len(cl.args) == 2:
+                x_, y_ = const_int(cl.args[0]), const_int(cl.args[1])
+                if x_ is None or y_ is None:
+                    x_, y_ = self.const_value(cl.args[0]), self.const_value(cl.args[1])
+                if x_ is not None and y_ is not None:
+                    r_ = x_ + y_ if last(cl.name) == 'u256_add' else x_ - y_
+                    if e.name == '0':
+                        return 'arr:%s' % hex(r_ % (1 << 256))
+                    return '1' if (r_ < 0 or r_ >= 1 << 256) else '0'
         if k in ('field', 'binop', 'cast'):
             v = const_int(e)
             if v is not None and k != 'cast':
@@ -675,6 +705,10 @@ class Canon:
             return r
         if k == 'aggr':
             if e.name == 'array' and e.args:
+                if ((e.c or {}).get('ety') == 'u8' or (e.ty or '').startswith('[u8;')) and all(const_int(a) is not None for a in e.args):
+                    # a literal byte array keeps its length: one byte is the element `byte(v)` a push would give
+                    bs = [const_int(a) & 0xff for a in e.args]
+                    return 'byte(%d)' % bs[0] if len(bs) == 1 else 'bytes:' + ''.join('%02x' % b for b in bs)
                 v = const_int(e)
                 if v is not None:
                     return 'arr:%s' % hex(v)
